@@ -309,12 +309,32 @@ func (r *Runner) invariants() (broken string) {
 // deliver builds the real transaction of an abstract one and delivers it.
 // tx: {msgs:[...], signers:[acct...], fee:n, exec:"none"|acct, mode:"direct"|"amino"}
 func (r *Runner) deliver(tx M) (TxResult, []any, error) {
+	bz, nmsgs, viaExec, early, err := r.buildTx(tx)
+	if err != nil {
+		return TxResult{}, nil, err
+	}
+	if early != nil {
+		return *early, nil, nil
+	}
+	res := r.c.DeliverRaw(bz)
+	if res.Panic {
+		r.panics++
+	}
+	offs := []any{}
+	if res.Result == "ok" {
+		offs = decodeOffsets(res.Data, viaExec, nmsgs)
+	}
+	return res, offs, nil
+}
+
+// buildTx builds and signs the real transaction of an abstract one.
+func (r *Runner) buildTx(tx M) (bz []byte, nmsgs int, viaExec bool, early *TxResult, err error) {
 	c := r.c
 	var msgs []sdk.Msg
 	for _, m := range list(tx, "msgs") {
 		msg, err := c.concMsg(m.(M))
 		if err != nil {
-			return TxResult{}, nil, err
+			return nil, 0, false, nil, err
 		}
 		msgs = append(msgs, msg)
 	}
@@ -350,7 +370,7 @@ func (r *Runner) deliver(tx M) (TxResult, []any, error) {
 		}
 	}()
 	if sigErr != nil {
-		return TxResult{Result: "ante", Panic: true, Log: sigErr.Error()}, nil, nil
+		return nil, 0, false, &TxResult{Result: "ante", Panic: true, Log: sigErr.Error()}, nil
 	}
 	signerSet := map[string]bool{}
 	var first cryptotypes.PrivKey
@@ -377,19 +397,11 @@ func (r *Runner) deliver(tx M) (TxResult, []any, error) {
 	if str(tx, "mode") == "amino" {
 		mode = signing.SignMode_SIGN_MODE_LEGACY_AMINO_JSON
 	}
-	bz, err := c.BuildTx(wrapped, required, keys, num(tx, "fee")*feeUnit, mode)
+	bz, err = c.BuildTx(wrapped, required, keys, num(tx, "fee")*feeUnit, mode)
 	if err != nil {
-		return TxResult{}, nil, fmt.Errorf("build tx: %w", err)
+		return nil, 0, false, nil, fmt.Errorf("build tx: %w", err)
 	}
-	res := c.DeliverRaw(bz)
-	if res.Panic {
-		r.panics++
-	}
-	offs := []any{}
-	if res.Result == "ok" {
-		offs = decodeOffsets(res.Data, exec != "" && exec != "none", len(msgs))
-	}
-	return res, offs, nil
+	return bz, len(msgs), exec != "" && exec != "none", nil, nil
 }
 
 // decodeOffsets extracts, per message, the offset reported by MsgAddRecordResponse (-1 for other messages).
